@@ -289,7 +289,7 @@ impl Comp {
     }
     /// heavy encoders (memory): lzma >= 7, brotli >= 10, zstd >= 20
     pub fn heavy(&self) -> bool {
-        matches!(self, Comp::Lzma(l) if *l >= 6) || matches!(self, Comp::Brotli(l) if *l >= 10) || matches!(self, Comp::Zstd(l) if *l >= 19)
+        matches!(self, Comp::Lzma(l) if *l >= 6) || matches!(self, Comp::Zstd(l) if *l >= 16)
     }
 }
 
@@ -297,9 +297,13 @@ pub fn comp_strategy() -> impl Strategy<Value = Comp> {
     prop_oneof![
         3 => Just(Comp::None),
         4 => (1u32..=11).prop_map(Comp::Brotli),
-        3 => (1u32..=22).prop_map(Comp::Zstd),
-        2 => (1u32..=9).prop_map(Comp::Lzma),
+        3 => (1u32..=15).prop_map(Comp::Zstd),
+        2 => (1u32..=5).prop_map(Comp::Lzma),
     ]
+}
+/// levels whose encoders allocate (and clear) hundreds of MiB per chunk: only used with few chunks
+pub fn heavy_comp_strategy() -> impl Strategy<Value = Comp> {
+    prop_oneof![(16u32..=22).prop_map(Comp::Zstd), (6u32..=9).prop_map(Comp::Lzma)]
 }
 /// cheap subset for checks where the codec is not the point
 pub fn light_comp_strategy() -> impl Strategy<Value = Comp> {
